@@ -1167,6 +1167,7 @@ class ClientObservation:
     class _Iterator:
         def __init__(self):
             self._future = asyncio.get_running_loop().create_future()
+            self._pending_error = None
 
         def push(self, item):
             if self._future.done():
@@ -1176,8 +1177,13 @@ class ClientObservation:
 
         def push_err(self, e):
             if self._future.done():
-                self._future = asyncio.get_running_loop().create_future()
-            self._future.set_exception(e)
+                # An item has not been picked up yet. While items may
+                # overwrite each other, the terminal error must not overwrite
+                # the last item (typically the final response); it is
+                # delivered once that item has been taken.
+                self._pending_error = e
+            else:
+                self._future.set_exception(e)
 
         async def __anext__(self):
             f = self._future
@@ -1188,6 +1194,9 @@ class ClientObservation:
                 # a quick second future comes in in a push?
                 if f is self._future:
                     self._future = asyncio.get_running_loop().create_future()
+                    if self._pending_error is not None:
+                        self._future.set_exception(self._pending_error)
+                        self._pending_error = None
                 return result
             except (error.NotObservable, error.ObservationCancelled):
                 # only exit cleanly when the server -- right away or later --
